@@ -481,6 +481,7 @@ func main() {
 
 	fmt.Fprintf(&out, "/-- assignments to package-level variables inside function bodies, as func:var -/\ndef stackGlobalWrites : List String := [%s]\ndef internalGlobalWrites : List String := [%s]\n\n", quoteAll(st.globalWrites()), quoteAll(in.globalWrites()))
 
+	fmt.Fprintf(&out, "/-- functions containing a `go` statement -/\ndef stackGoStmts : List String := [%s]\ndef internalGoStmts : List String := [%s]\n\n", quoteAll(st.goStmts()), quoteAll(in.goStmts()))
 	stackFns := map[string]bool{}
 	for _, n := range []string{"Args.merge", "Call.merge", "Stack.merge", "Signature.merge", "Snapshot.Aggregate", "Args.walk", "Args.String", "Arg.String",
 		"Args.equal", "Args.similar", "Arg.equal", "Arg.similar", "Call.equal", "Call.similar", "Stack.equal", "Stack.similar", "Stack.less", "Signature.equal", "Signature.similar", "Signature.less", "Signature.SleepString",
